@@ -139,7 +139,11 @@ def _execute_sib(case):
             outs.append(o)
     except Exception as e:  # noqa: the type is the outcome
         term = type(e).__name__
+    _VAR_AFTER[0] = (copy.deepcopy(var.var_context), var_snapshot)
     return outs, term, var_snapshot
+
+
+_VAR_AFTER = [None]      # (var_context of the argument variable after the run, before the run)
 
 
 def _observed_cells(outs, edges, n):
@@ -292,6 +296,12 @@ def check_sib(res, case, ref=None):
                      sorted(allowed_terms))
             else:
                 viol("sib-count", "raised", term, sorted(allowed_terms), exc=term)
+    after, before = _VAR_AFTER[0]
+    if freeze(after) != freeze(before):
+        # context.variable describes the argument variable; describing it must not rewrite it (the same
+        # Variable object may serve another SplitIntoBins or another flow)
+        viol("sib-context", "argument-variable-changed", {"var_context_after": repr(after)[:400]},
+             {"var_context": before}, ctx_mode=case["mode"], typed_variable="type" in before)
     if term != "end":
         res.count("sib_ended_by_exception")
     res.count("sib_cases")
